@@ -130,6 +130,10 @@ def gen_ctors():
                 for var in variants:
                     name = f"c_{t.lower()}{f.lower()}__{sig_code(inputs)}__{var}"
                     gen_ctor(name, t + f, list(inputs), lower, var[0])
+        if ti == 0:
+            # cloning policy given on the ANNOTATION (a registration may override it)
+            gen_ctor("c_t0k__0__c", "T0K", [], [], "c", extra_attr=", clone_if_necessary")
+            catalog[-1]["annotated_cin"] = True
     w()
 
 
@@ -250,16 +254,20 @@ def gen_mws():
 # ------------------------------------------------------------------------------------------------
 # error handlers, observers, fallbacks
 # ------------------------------------------------------------------------------------------------
-EH_INPUTS = [None, ("P", "r"), ("K", "v"), ("K", "r"), ("Y", "v")]
+EH_INPUTS = [None, ("P", "r"), ("K", "v"), ("K", "r"), ("Y", "v"), ("P", "v"), ("Y", "r")]
+
+
+EH_T1_INPUTS = [None, ("P", "r"), ("K", "r")]
 
 
 def gen_error_handlers():
     for e in ERRS + ["PavexError"]:
         ety = "pavex::Error" if e == "PavexError" else e
         for idx in (1, 2):
-            for i0 in EH_INPUTS:
-                ps, tags, cat = params([i0], TYPES[:1])
-                name = f"eh_{e.lower()}_{idx}__{sig_code([i0])}"
+            for i0, i1 in itertools.product(EH_INPUTS, EH_T1_INPUTS):
+                ps, tags, cat = params([i0, i1], TYPES[:2])
+                # historical names keep a single code when there is no T1 input
+                name = f"eh_{e.lower()}_{idx}__{sig_code([i0]) if i1 is None else sig_code([i0, i1])}"
                 ident = name.upper()
                 w(f"#[pavex::error_handler(id = \"{ident}\")]")
                 w(f"pub fn {name}({', '.join(['#[px(error_ref)] e: &' + ety] + ps)}) -> pavex::Response {{")
@@ -275,9 +283,9 @@ OBS_INPUTS = [None, ("P", "r"), ("K", "r"), ("K", "v"), ("Y", "v")]
 
 def gen_observers():
     for idx in (1, 2, 3):
-        for i0 in OBS_INPUTS:
-            ps, tags, cat = params([i0], TYPES[:1])
-            name = f"obs{idx}__{sig_code([i0])}"
+        for i0, i1 in itertools.product(OBS_INPUTS, EH_T1_INPUTS):
+            ps, tags, cat = params([i0, i1], TYPES[:2])
+            name = f"obs{idx}__{sig_code([i0]) if i1 is None else sig_code([i0, i1])}"
             ident = name.upper()
             w(f"#[pavex::error_observer(id = \"{ident}\")]")
             w(f"pub fn {name}({', '.join(['e: &pavex::Error'] + ps)}) {{")
